@@ -175,6 +175,65 @@ def _mutable_value(v):
     return False
 
 
+def _use_is_read_only(model, cg, fi, n, parent, depth=0):
+    """The occurrence n (a Name load) of a shared object inside function fi only reads the object in place."""
+    p = parent.get(id(n))
+    if isinstance(p, (ast.For, ast.AsyncFor, ast.comprehension)) and p.iter is n:
+        return True
+    if isinstance(p, ast.Call) and p.func is n:
+        return True        # a callable made at import time (a predicate built by a factory) is called, not shared
+    if isinstance(p, ast.Compare) and (n in p.comparators or p.left is n):
+        return True
+    if isinstance(p, ast.Subscript) and p.value is n and isinstance(p.ctx, ast.Load):
+        return True
+    if isinstance(p, ast.Call) and (n in p.args or any(k.value is n for k in p.keywords)) and src(p.func) in READ_ONLY_BUILTINS:
+        return True
+    if isinstance(p, ast.Starred) and isinstance(parent.get(id(p)), ast.Call):
+        return True
+    if isinstance(p, ast.Attribute) and p.value is n and isinstance(parent.get(id(p)), ast.Call) and parent[id(p)].func is p and p.attr in READ_ONLY_METHODS:
+        return True
+    if isinstance(p, ast.Call) and isinstance(p.func, ast.Attribute) and p.func.attr == 'join' and n in p.args:
+        return True
+    if isinstance(p, (ast.BinOp, ast.BoolOp, ast.UnaryOp)) or (isinstance(p, ast.IfExp) and p.test is n):
+        return True
+    if isinstance(p, ast.Tuple) and isinstance(parent.get(id(p)), ast.Call) and src(parent[id(p)].func) in ('isinstance', 'issubclass'):
+        return True
+    if isinstance(p, ast.Call) and n in p.args and depth < 3:
+        # handed to a function of the package: read-only if that function only reads the parameter in place
+        callees = [t for (t, _rc) in cg.resolve_call(fi, fi.cls, p)]
+        idx = p.args.index(n)
+        ok_all = bool(callees)
+        for cf in callees:
+            if cf is None:
+                ok_all = False
+                break
+            params = list(cf.positional)
+            if cf.cls is not None and params and params[0] in ('self', 'cls') and isinstance(p.func, ast.Attribute):
+                params = params[1:]
+            if idx >= len(params):
+                ok_all = False
+                break
+            if not _param_read_only(model, cg, cf, params[idx], depth + 1):
+                ok_all = False
+                break
+        return ok_all
+    return False
+
+
+def _param_read_only(model, cg, fi, param, depth):
+    parent = {}
+    for x in ast.walk(fi.node):
+        for c in ast.iter_child_nodes(x):
+            parent[id(c)] = x
+    for x in walk_own(fi.node):
+        if isinstance(x, ast.Name) and x.id == param:
+            if not isinstance(x.ctx, ast.Load):
+                return False
+            if not _use_is_read_only(model, cg, fi, x, parent, depth):
+                return False
+    return True
+
+
 def shared_escape(model, rep, cg, quals, control):
     """A mutable object created at module level (list / dict / set display, the result of a call - an instance, a generator) lives as long as the
     process. Functions reachable from the API may only *read* it in place: iterate, test membership, index, hand it to a read-only builtin. Any
@@ -204,27 +263,7 @@ def shared_escape(model, rep, cg, quals, control):
             if not (isinstance(n, ast.Name) and isinstance(n.ctx, ast.Load) and n.id in shared and n.id not in local):
                 continue
             p = parent.get(id(n))
-            ok = False
-            if isinstance(p, (ast.For, ast.AsyncFor, ast.comprehension)) and p.iter is n:
-                ok = True
-            elif isinstance(p, ast.Call) and p.func is n:
-                ok = True        # a callable made at import time (a predicate built by a factory) is called, not shared
-            elif isinstance(p, ast.Compare) and (n in p.comparators or p.left is n):
-                ok = True
-            elif isinstance(p, ast.Subscript) and p.value is n and isinstance(p.ctx, ast.Load):
-                ok = True
-            elif isinstance(p, ast.Call) and (n in p.args or any(k.value is n for k in p.keywords)) and src(p.func) in READ_ONLY_BUILTINS:
-                ok = True
-            elif isinstance(p, ast.Starred) and isinstance(parent.get(id(p)), ast.Call):
-                ok = True
-            elif isinstance(p, ast.Attribute) and p.value is n and isinstance(parent.get(id(p)), ast.Call) and parent[id(p)].func is p and p.attr in READ_ONLY_METHODS:
-                ok = True
-            elif isinstance(p, ast.Call) and isinstance(p.func, ast.Attribute) and p.func.attr == 'join' and n in p.args:
-                ok = True
-            elif isinstance(p, (ast.BinOp, ast.BoolOp, ast.UnaryOp, ast.IfExp)) and not (isinstance(p, ast.IfExp) and p.test is not n):
-                ok = True
-            elif isinstance(p, ast.Tuple) and isinstance(parent.get(id(p)), ast.Call) and src(parent[id(p)].func) in ('isinstance', 'issubclass'):
-                ok = True
+            ok = _use_is_read_only(model, cg, fi, n, parent)
             n_sites += 1
             if not ok:
                 m_, v = shared[n.id]
